@@ -23,7 +23,7 @@ func init() {
 			"R3 operator/punctuation recognition (for every assignment of an operator kind the matched bytes equal the kind's spelling and the number of bytes skipped equals its length; the set of kinds equals the reference list; longest match first), " +
 			"R4 comment openers/terminators, R5 the dot-identifier trigger set, R6 character classifiers of package char. " +
 			"Decides: table agreement. Does not decide: the number automaton, the prefix x quote matrix, rejection of exactly the invalid inputs (control flow over bytes).",
-		Rules: []ruleFn{ruleC14R1, ruleC14R2, ruleC14R3, ruleC14R4, ruleC14R5, ruleC14R6, ruleC14R7, ruleC14R8},
+		Rules: []ruleFn{ruleC14R1, ruleC14R2, ruleC14R3, ruleC14R4, ruleC14R5, ruleC14R6, ruleC14R7, ruleC14R8, ruleC14R9},
 	})
 }
 
@@ -1340,5 +1340,163 @@ func stripToCall(v ssa.Value) *ssa.Call {
 		default:
 			return nil
 		}
+	}
+}
+
+// ruleC14R9: rune discipline. A byte is not a rune: unicode.IsSpace(rune(b)) is true for 0x85 and 0xA0, which in
+// UTF-8 are continuation bytes of other characters; and a rune that was classified has to be consumed whole.
+func ruleC14R9(w *World, r *Report) {
+	const rule = "C14/R9"
+	r.rule(rule, "every rune handed to a unicode.* predicate in the core packages is the first result of utf8.DecodeRune*/DecodeLastRune* or a range-over-string value (never a converted byte); in *Lexer methods, the cursor advances that follow such a predicate advance by exactly the size returned by the same decode call", 3)
+	isDecode := func(v ssa.Value) *ssa.Call {
+		c, ok := v.(*ssa.Call)
+		if !ok {
+			return nil
+		}
+		sc := c.Call.StaticCallee()
+		if sc == nil || sc.Pkg == nil || sc.Pkg.Pkg.Path() != "unicode/utf8" || !strings.HasPrefix(sc.Name(), "Decode") {
+			return nil
+		}
+		return c
+	}
+	var origin func(v ssa.Value, seen map[ssa.Value]bool) (string, *ssa.Call)
+	origin = func(v ssa.Value, seen map[ssa.Value]bool) (string, *ssa.Call) {
+		if seen[v] {
+			return "", nil
+		}
+		seen[v] = true
+		switch x := v.(type) {
+		case *ssa.Extract:
+			if c := isDecode(x.Tuple); c != nil && x.Index == 0 {
+				return "", c
+			}
+			if nx, ok := x.Tuple.(*ssa.Next); ok && nx.IsString && x.Index == 2 {
+				return "", nil
+			}
+			return "a value that is not a decoded rune (" + x.String() + ")", nil
+		case *ssa.Const:
+			return "", nil
+		case *ssa.Phi:
+			var dc *ssa.Call
+			for _, e := range x.Edges {
+				why, c := origin(e, seen)
+				if why != "" {
+					return why, nil
+				}
+				if c != nil {
+					dc = c
+				}
+			}
+			return "", dc
+		case *ssa.Convert:
+			if b, ok := x.X.Type().Underlying().(*types.Basic); ok && (b.Kind() == types.Uint8 || b.Kind() == types.Int8) {
+				return "a byte converted to rune: bytes >= 0x80 are UTF-8 lead/continuation bytes, not the Latin-1 characters U+0080..U+00FF the predicate takes them for", nil
+			}
+			return origin(x.X, seen)
+		case *ssa.Parameter:
+			fn := x.Parent()
+			idx := -1
+			for i, p := range fn.Params {
+				if p == x {
+					idx = i
+				}
+			}
+			callers := w.callersOf(fn)
+			if len(callers) == 0 {
+				return "", nil // exported helper taking a rune: the caller's concern
+			}
+			for _, cs := range callers {
+				com := cs.Common()
+				off := 0
+				if com.IsInvoke() {
+					off = 1
+				}
+				if idx-off >= 0 && idx-off < len(com.Args) {
+					if why, _ := origin(com.Args[idx-off], seen); why != "" {
+						return why, nil
+					}
+				}
+			}
+			return "", nil
+		}
+		return "a value of unknown origin (" + v.String() + ")", nil
+	}
+	n := 0
+	for _, fn := range w.ModFns {
+		if !corePkg(fnPkgPath(fn)) || fn.Blocks == nil {
+			continue
+		}
+		for _, b := range fn.Blocks {
+			for _, in := range b.Instrs {
+				c, ok := in.(*ssa.Call)
+				if !ok {
+					continue
+				}
+				sc := c.Call.StaticCallee()
+				if sc == nil || sc.Pkg == nil || sc.Pkg.Pkg.Path() != "unicode" || len(c.Call.Args) == 0 {
+					continue
+				}
+				if bt, ok := c.Call.Args[0].Type().Underlying().(*types.Basic); !ok || bt.Kind() != types.Int32 {
+					continue
+				}
+				n++
+				construct := fmt.Sprintf("unicode.%s in %s", sc.Name(), funcName(fn))
+				why, dc := origin(c.Call.Args[0], map[ssa.Value]bool{})
+				if why != "" {
+					r.bad(rule, construct, w.pos(c.Pos()), "the predicate is applied to "+why)
+					continue
+				}
+				r.ok(rule, construct, w.pos(c.Pos()), "applied to a decoded rune")
+				// the advance that follows, in *Lexer methods
+				if dc == nil || fn.Signature.Recv() == nil || !w.isLexerPtr(fn.Signature.Recv().Type()) {
+					continue
+				}
+				var yes *ssa.BasicBlock
+				for _, u := range referrers(c) {
+					if iff, ok := u.(*ssa.If); ok {
+						yes = iff.Block().Succs[0]
+					}
+				}
+				cons2 := construct + ": advance"
+				if yes == nil || len(yes.Preds) != 1 {
+					r.undecided(rule, cons2, w.pos(c.Pos()), "the predicate's result is not used directly as a branch condition with a private yes-successor")
+					continue
+				}
+				var problems []string
+				nadv := 0
+				for _, bb := range fn.Blocks {
+					if !(bb == yes || yes.Dominates(bb)) {
+						continue
+					}
+					for _, x := range bb.Instrs {
+						if !w.isCursorAdvance(x) {
+							continue
+						}
+						nadv++
+						call := x.(*ssa.Call)
+						okSize := false
+						if len(call.Call.Args) == 2 {
+							if ex, ok := call.Call.Args[1].(*ssa.Extract); ok && ex.Tuple == ssa.Value(dc) && ex.Index == 1 {
+								okSize = true
+							}
+						}
+						if !okSize {
+							problems = append(problems, fmt.Sprintf("the advance at %s is not skipN(size) with the size of the decoded rune: a multi-byte character is consumed in part and its remaining bytes are lexed as something else", w.pos(call.Pos())))
+						}
+					}
+				}
+				if nadv == 0 {
+					problems = append(problems, "no cursor advance follows the positive classification")
+				}
+				if len(problems) > 0 {
+					r.bad(rule, cons2, w.pos(c.Pos()), strings.Join(problems, "; "))
+				} else {
+					r.ok(rule, cons2, w.pos(c.Pos()), "advance by the decoded size")
+				}
+			}
+		}
+	}
+	if n < 2 {
+		r.errorf("expected at least two unicode.* predicate calls (skipSpaces, quote), found %d", n)
 	}
 }
